@@ -10,6 +10,9 @@ import itertools
 import functools
 import operator
 
+import enum
+import numbers
+import collections.abc
 from .. import env
 from ..util import call
 from ..report import short
@@ -75,6 +78,22 @@ def _pick_default(rng, counter):
 OPS = {'==': operator.eq, '!=': operator.ne, '>': operator.gt, '<': operator.lt, '>=': operator.ge, '<=': operator.le}
 
 
+class _Meta(type):
+    pass
+
+
+class _MetaTuple(tuple, metaclass=_Meta):
+    pass
+
+
+class _MetaOther(metaclass=_Meta):
+    pass
+
+
+class _Colour(enum.Enum):
+    RED = 1
+
+
 class NoNamePred:
     """a predicate that is a callable *instance*: it has no __name__"""
     def __init__(self, tag, i, log):
@@ -129,7 +148,9 @@ def gen_atom(rng, n, serial, log):
         c = tuple(rng.choice([0, 1]) for _ in range(n))
         a.update(name='M%s%r' % (op, c), truth=lambda t: OPS[op](t, c), spec=m_op(M, op, c), m_pure=True, op_ok=True)
     elif kind == 'type':
-        ty = rng.choice([tuple, list, object, int])
+        # (classes with a metaclass of their own - ABCs, a user metaclass, an Enum - are type atoms like any other class)
+        ty = rng.choice([tuple, list, object, int, collections.abc.Sequence, collections.abc.Mapping, collections.abc.Sized, numbers.Number,
+                         collections.abc.Hashable, _MetaTuple, _MetaOther, _Colour])
         a.update(name=ty.__name__, truth=lambda t: isinstance(t, ty), spec=ty)
     elif kind == 'pattern':
         pat = tuple(1 if j == i else object for j in range(n))
